@@ -1,8 +1,153 @@
 package c18
 
-import "verif/engine"
+import (
+	"encoding/json"
+	"fmt"
+	"time"
 
-// filled in with the UDP world
-func runUDP(ctx *engine.Ctx)                                          {}
-func replayUDP(ctx *engine.Ctx, rp engine.Replay) []*engine.Finding   { return nil }
-func udpScenarios() []*engine.Scenario                               { return nil }
+	"verif/engine"
+	"verif/harness/hk"
+	"verif/harness/udpx"
+	"verif/harness/world"
+	"verif/rt/vrt"
+)
+
+type udpCase struct {
+	Kind string `json:"kind"`
+	A    int    `json:"a"`
+	B    int    `json:"b"`
+	FailSocket int `json:"fail_socket,omitempty"`
+}
+
+// ops: the hostile datagram / reply, then a well-formed exchange of another client that must work
+func (c udpCase) ops() []udpx.Op {
+	follow := []udpx.Op{{K: "S", C: 2, Key: 1, T: 1, N: 33}, {K: "R", C: 2, T: 1, N: 44}}
+	open := udpx.Op{K: "S", C: 0, Key: 0, T: 1, N: 10}
+	var first []udpx.Op
+	switch c.Kind {
+	case "addr-type":
+		raw := append([]byte{byte(c.A)}, world.Pattern(byte(c.A), c.B)...)
+		first = []udpx.Op{{K: "S", C: 0, Key: c.A % 4, Raw: raw}, open, {K: "S", C: 0, Key: 0, Raw: raw}}
+	case "domain-len":
+		raw := append([]byte{3, byte(c.A)}, world.Pattern(7, c.B)...)
+		first = []udpx.Op{{K: "S", C: 0, Key: c.A % 4, Raw: raw}}
+	case "hdr-trunc":
+		full := world.Addr([]string{"93.184.216.34:80", "[2606:2800:220:1::1]:80", "dns.example:53"}[c.B%3])
+		n := c.A
+		if n > len(full) {
+			n = len(full)
+		}
+		first = []udpx.Op{{K: "S", C: 0, Key: c.B % 4, Raw: append([]byte{}, full[:n]...)}}
+	case "short":
+		// datagrams shorter than salt / salt+tag, random bytes of every small length
+		first = []udpx.Op{{K: "S", C: 0, Key: c.B % 4, N: 0, Mod: "raw-wire"}}
+	case "reply":
+		// reply of size A from source B on a live association
+		first = []udpx.Op{open, {K: "R", C: 0, T: c.B, N: c.A}, {K: "R", C: 0, T: 1, N: 5}}
+	case "socket-fail":
+		first = []udpx.Op{open, {K: "S", C: 1, Key: 1, T: 1, N: 5}}
+	case "shutdown":
+		first = []udpx.Op{open, {K: "S", C: 1, Key: 1, T: 0, N: 5}, {K: "R", C: 0, T: 1, N: 5}}
+		return append(first, udpx.Op{K: "Q"})
+	}
+	return append(first, follow...)
+}
+
+func udpScenario(c udpCase) *engine.Scenario {
+	tr := &udpx.Trace{}
+	sc := &engine.Scenario{Name: "udp-inputs", Opt: vrt.Options{Horizon: udpx.Horizon}}
+	ops := c.ops()
+	sc.Body = func() {
+		udpx.Run(udpx.Config{Keys: udpx.DefaultKeys(), NatTimeout: 5 * time.Minute, FailSocket: c.FailSocket}, ops, tr)
+	}
+	sc.Check = func(x *vrt.Exec) (string, bool, []*engine.Finding) {
+		fs := hk.Generic(x, hk.Opts{Leaks: true})
+		add := func(sig, format string, a ...any) {
+			fs = append(fs, &engine.Finding{Sig: sig, Msg: fmt.Sprintf(format, a...) + fmt.Sprintf(" case=%+v", c)})
+		}
+		if len(fs) > 0 {
+			return "generic", true, fs
+		}
+		if len(tr.Recovered) > 0 {
+			add("recovered-panic", "the UDP loop panicked (recovered): %v", tr.Recovered)
+		}
+		for _, l := range hk.Logs() {
+			if len(l.Msg) >= 5 && l.Msg[:5] == "Panic" {
+				add("recovered-panic", "logged: %s %s", l.Msg, l.Attrs)
+			}
+		}
+		if len(tr.Open) > 0 {
+			add("socket-leak", "server sockets open after shutdown: %v", tr.Open)
+		}
+		if !tr.Returned {
+			add("handle-not-returned", "PacketHandler.Handle did not return")
+		}
+		obs := ""
+		if c.Kind != "shutdown" && !(c.Kind == "socket-fail" && c.FailSocket >= 3) {
+			// the follower's exchange must have worked
+			n := len(tr.Steps)
+			s, r := tr.Steps[n-3], tr.Steps[n-2]
+			if len(s.TargetRecv) != 1 || len(r.ClientRecv) != 1 {
+				add("follower-broken", "after the hostile input a well-formed client was not served (%d forwarded, %d relayed)", len(s.TargetRecv), len(r.ClientRecv))
+			}
+		}
+		for _, st := range tr.Steps {
+			obs += fmt.Sprintf("%s:%d/%d;", st.Op.K, len(st.TargetRecv), len(st.ClientRecv))
+		}
+		return obs, true, fs
+	}
+	return sc
+}
+
+func udpCases() []udpCase {
+	var out []udpCase
+	for t := 0; t < 256; t++ {
+		for _, fill := range []int{0, 6, 18, 300} {
+			out = append(out, udpCase{Kind: "addr-type", A: t, B: fill})
+		}
+	}
+	for _, l := range []int{0, 1, 2, 254, 255} {
+		for _, have := range []int{0, 1, l, l + 1, l + 2, l + 3} {
+			out = append(out, udpCase{Kind: "domain-len", A: l, B: have})
+		}
+	}
+	for v := 0; v < 3; v++ {
+		for n := 0; n <= 20; n++ {
+			out = append(out, udpCase{Kind: "hdr-trunc", A: n, B: v})
+		}
+	}
+	for _, size := range []int{0, 1, 1400, 65400, 65469, 65470, 65485, 65486, 65507} {
+		for src := 0; src < 6; src++ {
+			out = append(out, udpCase{Kind: "reply", A: size, B: src})
+		}
+	}
+	for f := 1; f <= 3; f++ {
+		out = append(out, udpCase{Kind: "socket-fail", FailSocket: f})
+	}
+	out = append(out, udpCase{Kind: "shutdown"})
+	return out
+}
+
+func runUDP(ctx *engine.Ctx) {
+	for i, c := range udpCases() {
+		if !ctx.Mine(int64(i)) {
+			continue
+		}
+		if ctx.Expired() {
+			ctx.Incomplete("udp-inputs", "udp-inputs: time cap hit at case %d", i)
+			return
+		}
+		ctx.RunCase("udp-inputs", "E", udpScenario(c), c, nil)
+	}
+}
+
+func replayUDP(ctx *engine.Ctx, rp engine.Replay) []*engine.Finding {
+	var c udpCase
+	if err := json.Unmarshal(rp.Input, &c); err != nil {
+		return []*engine.Finding{{Sig: "BROKEN:bad-input", Msg: err.Error()}}
+	}
+	rp.Choices = nil
+	return engine.ReplayCase("udp-inputs", udpScenario(c), rp)
+}
+
+func udpScenarios() []*engine.Scenario { return nil }
